@@ -18,6 +18,7 @@ import Complgen.Spec.Complete
 import Complgen.Proofs.Offer
 import Complgen.Proofs.TemplateDfa
 import Complgen.Proofs.TemplateDfaAll
+import Complgen.Proofs.SubwordDfa
 namespace Complgen.Props.C01
 open Complgen Complgen.Spec.Complete
 
@@ -122,5 +123,32 @@ same list, for all tables -/
 theorem template_overwritten_array_harmless (S : BashRt.Script) (q : Nat) (p : String) :
     offerAcc S q p = BashRt.offer S q p :=
   offerAcc_eq_offer S q p
+
+open Complgen.Tables Complgen.TemplateDfa Complgen.SubwordDfa in
+/-- **The within-word matcher follows the within-word automaton** (`Proofs/SubwordDfa.lean`), in the class the
+property is stated for: a within-word automaton whose transitions carry non-empty literals, prefix-free
+at every state and with one target per text.  The function `_<cmd>_subword_N matches` accepts a word
+exactly when the word is the concatenation of the texts of a path of transitions from the start state
+(there are no accepting states in the tables: the recorded finding); in complete mode it stops after
+the longest readable part and offers `matched ++ literal` for the literals expected there that extend
+the rest, at the least `||` level that has any. -/
+theorem within_word_matcher_follows_automaton (s : Auto) (cmds : List String) (out : Nat → List String)
+    (hstart : s.start = 0) (honly : ∀ q, LitOnlyAt s q) (hne : ∀ q, LitNonEmptyAt s q)
+    (hpf : ∀ q, PrefixFreeAt s q) (hdet : ∀ q, WordDetAt s q) (word : String) :
+    (BashRt.subMatches (ofAuto s cmds fun _ => none) out word = true ↔
+      ∃ t, SubPath s s.start word.toList t) ∧
+    ∃ q i, ReadsTo s s.start word.toList q i ∧
+      ∀ c, c ∈ BashRt.subComplete (ofAuto s cmds fun _ => none) out word ↔
+        SubCand s q (String.ofList (word.toList.take i)) (word.toList.drop i) c :=
+  ⟨ofAuto_subMatches_iff s cmds out hstart honly hne hpf hdet word,
+   ofAuto_subComplete_mem s cmds out hstart honly hne hpf hdet word⟩
+
+open Complgen.SubwordDfa in
+/-- prefix-freeness is needed (it is the class C12 treats separately): with `a`, `ab` expected at one state
+and `bc` after `a`, the word `abc` is a path of the automaton and the one-pass matcher misses it -/
+theorem within_word_needs_prefix_free :
+    ¬ ∀ (T : BashRt.Tables) (s : Auto) (word : String), SubOf T s → s.start = 0 →
+      (∃ t, SubPath s s.start word.toList t) → BashRt.subMatches T (fun _ => []) word = true :=
+  subMatches_iff_needs_prefixFree
 
 end Complgen.Props.C01
